@@ -39,6 +39,7 @@ func main() {
 	os.Setenv("TZ", "UTC")
 	tr := NewTrace(*out, *shards)
 	var stats M
+	repoDir = *repo
 	switch fam {
 	case "selftest":
 		if err := decoderSelfTest(*scratch); err != nil {
@@ -65,7 +66,6 @@ func main() {
 	case "config":
 		stats = famConfig(tr, *scratch, *seed, *tier, *workers, *profile)
 	case "pkg":
-		repoDir = *repo
 		stats = famPkg(tr, *scratch, *seed, *tier, *workers, *profile)
 	default:
 		fmt.Fprintln(os.Stderr, "unknown family", fam)
